@@ -30,7 +30,7 @@ def pdiff(d, P):
 
 
 # ------------------------------------------------------------------------------- generator
-def gen_case(r, k, same=None):
+def gen_case(r, k, same=None, long_=False):
     nd = r.choice([1, 1, 1, 2, 2, 3])
     if same is None:
         same = r.random() < 0.5
@@ -73,7 +73,7 @@ def gen_case(r, k, same=None):
         nt *= v["nx"]
     c["scaled"] = r.random() < 0.25
     c["sfac"] = [r.choice([0.0, 0.25, 0.5, 0.5, 1.0, 2.0, -1.0]) for _ in range(nt)] if c["scaled"] else []
-    nsteps = r.randint(6, 26)
+    nsteps = r.randint(60, 160) if long_ else r.randint(6, 26)
     steps = []
     prev = None
     for s in range(nsteps):
@@ -815,7 +815,9 @@ def check(run):
                 cc["id"] = "K%d" % len(cases)
                 cases.append(cc)
     for k in range(n):
-        cases.append(gen_case(r, "G%d" % k))
+        # thorough tier: one case in eight is a long history (every bin passes minSamples and fullSamples,
+        # several run boundaries, many returns to the same bins)
+        cases.append(gen_case(r, "G%d" % k, long_=(not quick and k % 8 == 7)))
 
     # batches are homogeneous in the timing convention (the feature tables of colvarbias are
     # static and depend on total_forces_same_step() at their first initialisation)
